@@ -65,14 +65,16 @@ where
                         let mut nesting = 0;
                         let mut first = true;
                         let mut seen_colon = false;
-                        let mut seen_lambda = false;
+                        // Number of `lambda`s whose `:` has not been seen yet. Lambdas nest through
+                        // parameter defaults (`lambda a=lambda: 1: a`), so a flag is not enough.
+                        let mut open_lambdas = 0u32;
                         while let Some(Ok((tok, _))) = self.underlying.peek() {
                             match tok {
                                 Tok::Newline => break,
-                                Tok::Lambda if nesting == 0 => seen_lambda = true,
+                                Tok::Lambda if nesting == 0 => open_lambdas += 1,
                                 Tok::Colon if nesting == 0 => {
-                                    if seen_lambda {
-                                        seen_lambda = false;
+                                    if open_lambdas > 0 {
+                                        open_lambdas -= 1;
                                     } else if !first {
                                         seen_colon = true;
                                     }
